@@ -98,6 +98,8 @@ def save_check(ctx, t, fails, where):
 
 def save_fails_with(recipe, ops, d, sig):
     """does the history end in a save / reopen failure of document d with this signature? (shrinking)"""
+    if len(T.guarded(tuple(recipe), list(ops))) != len(ops):
+        return False        # the shrunk history would insert a layer that is still listed (C10's known finding)
     t = T.run_history(tuple(recipe), list(ops), check_fresh=False, check_inv=False)
     w = t.world
     if t.stopped is not None or t.out_of_model is not None or d >= len(w.objs) or not isinstance(w.objs[d], T.PSDImage):
@@ -180,6 +182,12 @@ def run(ctx: core.Run):
     for t in chosen:
         if t.stopped is not None or t.out_of_model is not None:
             continue            # ill-formed tree (C10 finding) or a pixel conversion that raised
+        if len(T.guarded(tuple(t.world.recipe), list(t.ops))) != len(t.ops):
+            # the exhaustive histories run without the invariant check, so `stopped` is not set for them: a history
+            # that inserts a layer which is still listed leaves the guarded fragment all the same (C10's known finding;
+            # e.g. newgroup 2; clear 2; append 4 2 closes a cycle of parent pointers and save() recurses)
+            ctx.hist("save_reopen", "skipped: history leaves the guarded fragment (already-listed insertion)")
+            continue
         save_check(ctx, t, fails, "end")
     seen = set()
     for sig, what, case in fails:
@@ -196,7 +204,7 @@ def run(ctx: core.Run):
                 t2 = T.run_history(tuple(case["recipe"]), list(ops), check_fresh=False, check_inv=False)
                 f2 = save_signature(t2.world, case["document"], T.save_reopen(t2.world.objs[case["document"]]))
                 if f2 and f2[0] == sig:
-                    case, what = dict(case, ops=T.ops_to_json(ops)), f2[1]
+                    case, what = dict(case, ops=T.ops_to_json(ops), ops_before_shrinking=case["ops"]), f2[1]
             except core.Infra:
                 raise
             except Exception:  # noqa
